@@ -106,7 +106,7 @@ func TransportSafe(loc valgen.Loc, v any) bool {
 		}
 		t = TextOf(v) // bytes outside the body travel verbatim as text
 		if t == "" {
-			return true
+			return false // no bytes outside the body is absence, not a value
 		}
 	}
 	switch loc {
